@@ -42,6 +42,19 @@ def handler(job):
             s = K.sbvn_cdf(X, Y, mu_x=job["mu"][0], mu_y=job["mu"][1], sigma_x=job["vx"], sigma_y=job["vy"])
             n1 = K.norm_cdf(np.array(job["ts"], dtype=float) / 8.0)
             return {"VG": mat(g, n), "VS": mat(s, n), "N1": [fl(x) for x in n1]}
+        if k == "productx":
+            # off-lattice decimal points and decimal means: the marginals are the code's own univariate CDF (validated against the table by the
+            # lattice cases) evaluated at standardised coordinates formed in EXACT rational arithmetic from the very doubles the code receives
+            from fractions import Fraction
+            sx, sy = math.sqrt(job["vx"]), math.sqrt(job["vy"])
+            xs = np.array([job["mu"][0] + q * sx for q in job["ks"]]); ys = np.array([job["mu"][1] + q * sy for q in job["ks"]])
+            zx = np.array([float((Fraction(float(x)) - Fraction(job["mu"][0])) / Fraction(sx)) for x in xs])
+            zy = np.array([float((Fraction(float(y)) - Fraction(job["mu"][1])) / Fraction(sy)) for y in ys])
+            X, Y = np.meshgrid(xs, ys, indexing="ij"); X, Y = X.ravel(), Y.ravel(); n = len(xs)
+            sig = np.array([[job["vx"], 0.0], [0.0, job["vy"]]])
+            g = K.gaussian(X, Y, mu=np.array(job["mu"], dtype=float), sigma=sig)
+            s = K.sbvn_cdf(X, Y, mu_x=job["mu"][0], mu_y=job["mu"][1], sigma_x=job["vx"], sigma_y=job["vy"])
+            return {"VG": mat(g, n), "VS": mat(s, n), "NX": [fl(x) for x in K.norm_cdf(zx)], "NY": [fl(x) for x in K.norm_cdf(zy)]}
         if k == "uniform":
             out = []
             for x, y, mx, my, w, h in job["pts"]:
